@@ -168,6 +168,13 @@ def gen_plan(seed, tier="quick"):
             v = (a << 17) | (1 << 15) | (i << 10) | r.choice([0, 1, 2, 5, 9, 11, 12, 14, r.getrandbits(10)])
             plan["traffic"].append({"t_us": plan["traffic"][-1]["t_us"] + r.choice([20000, 400000]),
                                     "frames": [[24, v & ~(1 << 16)]], "kind": "event-mapped"})
+            if knobs.get("inst_map_late") and driver in ("luba", "sci") and r.random() < 0.6:
+                # the application learns the instance types while traffic is flowing: the same event is
+                # seen before and after the map knows its instance
+                t_ev = plan["traffic"][-1]["t_us"]
+                plan["traffic"].append({"t_us": t_ev + 500000, "frames": [[24, v & ~(1 << 16)]], "kind": "event-mapped"})
+                knobs["inst_map_fill_at_us"] = t_ev + 250000
+                plan["settle_s"] = 1.2
     ncall = r.choice([0, 0, 1, 1, 2]) if driver != "hasseb" else r.choice([1, 2, 3])
     if ncall:
         cats = plans.driver_cats(driver)
@@ -410,9 +417,14 @@ def _hasseb_reference(rr):
 def _serial_reference(rr, imap):
     ems = []
     dt = 0
+    filled = getattr(rr.driver, "_verif_map_filled_us", 0)
+    from dali.device.helpers import DeviceInstanceTypeMapper
+    empty = DeviceInstanceTypeMapper()
     for t, bits, value in getattr(rr.dev, "observed", []):
         f = dali.frame.ForwardFrame(bits, value)
-        c = cmds.decode(f, dt, imap)
+        # decoded in the context in force when the frame arrives: the map as it is *then*
+        use = imap if (filled is not None and t >= filled) or not hasattr(rr.driver, "_verif_map_filled_us") else empty
+        c = cmds.decode(f, dt, use)
         dt = c.param if isinstance(c, cmds.EnableDeviceType) else 0
         ems.append((t, c, None, False, "immediate"))
     return ems
